@@ -137,6 +137,8 @@ class Ctx:
                                          generated=r.generated, wall_s=round(r.wall_s, 1), note="trace validation"))
         self.cov["states"] += r.distinct
         self.cov["transitions"] += r.generated
+        if getattr(r, "advisories", 0):
+            self.cov["advisories_mechanism_differs_from_model"] = self.cov.get("advisories_mechanism_differs_from_model", 0) + r.advisories
         return rejects
 
     def evaluate(self, module: str, cases: list, *, name="cases", timeout=900, heap="8g"):
